@@ -161,6 +161,9 @@ func (w *World) runOp(i int, op Op) {
 	case "recreate":
 		if p != nil && !p.exists {
 			w.createPodObject(p)
+			// what the previous incarnation held may have been collected while the name was
+			// absent; the new one holds nothing until its own ADD
+			p.held = false
 			w.run.S.Log("kubelet", "recreate pod %s uid=%s", p.spec.Name, p.uid)
 		}
 	case "exit":
